@@ -100,6 +100,11 @@ class Woven:
             raise LostAnchor(f"{self.src.rel} {self.kind} {self.name}: anchor /{regex}/ #{nth} not found ({len(hits)} hits)")
         return hits[nth - 1]
 
+    def count_until(self, regex, idx):
+        """How many lines up to and including idx match regex (to turn a position into an ordinal)."""
+        pat = re.compile(regex)
+        return len([1 for l in self.lines[: idx + 1] if pat.search(l)])
+
     def count(self, regex):
         pat = re.compile(regex)
         return len([1 for l in self.lines if pat.search(l)])
